@@ -3,8 +3,14 @@ package main
 import (
 	"fmt"
 	"os"
+	"path/filepath"
+	"runtime"
 	"strings"
 	"sync"
+	"sync/atomic"
+
+	"github.com/RoaringBitmap/roaring/v2"
+	segment "github.com/blevesearch/scorch_segment_api/v2"
 
 	zap "github.com/blevesearch/zapx/v16"
 
@@ -50,7 +56,7 @@ func refSeqs(n int) [][]uint64 {
 }
 
 func checkC20(c *ctx) {
-	c.Rule = "every AddRef/DecRef(Close) sequence up to the length bound with the count positive until the end (exhaustive); after each step: /proc/self/maps, /proc/self/fd and a full read through the API are compared with the model state (refs, mapped, releases); non-trivial = sequence of length >= 3 containing an AddRef"
+	c.Rule = "every AddRef/DecRef(Close) sequence up to the length bound with the count positive until the end (exhaustive); after each step: /proc/self/maps, /proc/self/fd and a full read through the API are compared with the model state (refs, mapped, releases); random histories with readers in between (full read, completed merge, abandoned merge, merge whose output cannot be created); 2-9 concurrent holders with readers; the last 2-4 references dropped at the same instant through a spin barrier (exactly one release, no error); non-trivial = sequence of length >= 3 containing an AddRef"
 	c.Assumptions = append(c.Assumptions,
 		"munmap/close are OS behaviour: observed through /proc/self/maps and /proc/self/fd, not modelled",
 		"concurrency: each operation is one atomic step under Segment.m (theorem covers all interleavings of atomic steps); data-race freedom is observed with the race detector on sampled schedules only")
@@ -124,6 +130,103 @@ func checkC20(c *ctx) {
 		}
 	}
 	c.Exhaustive = true
+	// histories with readers in between: a full read, a merge taking the segment as input that
+	// completes, one that is abandoned (close channel fired) and one whose output cannot be created
+	useNames := []string{"Read", "MergeOK", "MergeAbandoned", "MergeBadPath"}
+	hist := c.n(40, 600)
+	for k := 0; k < hist; k++ {
+		s, err := zh.Plugin.Open(path)
+		must(err)
+		seg := s.(*zap.Segment)
+		var ops []uint64
+		var kinds []int
+		cnt := 1
+		for cnt > 0 && len(ops) < 40 {
+			switch x := c.R.Intn(10); {
+			case x < 2:
+				ops, kinds, cnt = append(ops, 0), append(kinds, 0), cnt+1
+			case x < 5 && (cnt > 1 || len(ops) > 4):
+				ops, kinds, cnt = append(ops, 1), append(kinds, c.R.Intn(2)), cnt-1
+			default:
+				ops, kinds = append(ops, 2), append(kinds, c.R.Intn(4))
+			}
+		}
+		for cnt > 0 {
+			ops, kinds, cnt = append(ops, 1), append(kinds, c.R.Intn(2)), cnt-1
+		}
+		tr := ask(c, sx.L(sx.N(zh.ReqRef), sx.Nums(ops)))
+		var names []string
+		var fail string
+		uses := 0
+		for i, o := range ops {
+			var derr error
+			switch o {
+			case 0:
+				seg.AddRef()
+				names = append(names, "AddRef")
+			case 1:
+				if kinds[i] == 0 {
+					derr = seg.DecRef()
+					names = append(names, "DecRef")
+				} else {
+					derr = seg.Close()
+					names = append(names, "Close")
+				}
+			default:
+				uses++
+				names = append(names, useNames[kinds[i]])
+				switch kinds[i] {
+				case 0:
+					got, err := zh.Dump(seg)
+					if err != nil || got.Sx().String() != wantS {
+						fail = fmt.Sprintf("after %v: segment no longer reads back its content (err=%v)", names, err)
+					}
+				case 1:
+					out := zh.TmpPath("refm")
+					_, _, err := zh.Plugin.Merge([]segment.Segment{seg}, []*roaring.Bitmap{nil}, out, nil, nil)
+					if err != nil {
+						fail = fmt.Sprintf("after %v: merge of a held segment failed: %v", names, err)
+					}
+					os.Remove(out)
+				case 2:
+					out := zh.TmpPath("refm")
+					ch := make(chan struct{})
+					close(ch)
+					_, _, err := zh.Plugin.Merge([]segment.Segment{seg}, []*roaring.Bitmap{nil}, out, ch, nil)
+					if err == nil {
+						os.Remove(out)
+					}
+				case 3:
+					out := filepath.Join(zh.TmpDir(), "no-such-dir", "x.zap")
+					_, _, err := zh.Plugin.Merge([]segment.Segment{seg}, []*roaring.Bitmap{nil}, out, nil, nil)
+					if err == nil {
+						fail = fmt.Sprintf("after %v: merge into a missing directory succeeded", names)
+					}
+				}
+			}
+			mp, fd := mappedAndFd(path)
+			exp := tr.L[i]
+			expMapped := exp.L[1].N == 1
+			if fail == "" && (mp != expMapped || fd != expMapped) {
+				fail = fmt.Sprintf("after %v: mapped=%v descriptor open=%v, model says mapped=%v (refs %d)", names, mp, fd, expMapped, exp.L[0].N)
+			}
+			if fail == "" && derr != nil {
+				fail = fmt.Sprintf("%v: the last call returned error %v", names, derr)
+			}
+			if fail != "" {
+				break
+			}
+		}
+		c.Case(fmt.Sprint("hist", ops, kinds), uses > 0 && len(ops) >= 3)
+		c.Count("histories_with_readers")
+		if k == 0 {
+			c.Sample(map[string]interface{}{"calls": names})
+		}
+		if fail != "" {
+			c.Violation("C20 history with readers on a freshly opened segment (refs = 1)\n"+fail, false)
+			return
+		}
+	}
 	// in-memory segment: Close is harmless
 	if err := sb.Close(); err != nil {
 		c.Violation("C20 in-memory Close returned "+err.Error(), false)
@@ -184,4 +287,55 @@ func checkC20(c *ctx) {
 			return
 		}
 	}
+	// the last references dropped at the same instant by different holders: exactly one release
+	trials := c.n(1500, 30000)
+	for k := 0; k < trials; k++ {
+		s, err := zh.Plugin.Open(path)
+		must(err)
+		seg := s.(*zap.Segment)
+		g := 2 + k%3
+		for j := 1; j < g; j++ {
+			seg.AddRef()
+		}
+		var ready, gate int32
+		var wg sync.WaitGroup
+		errc := make(chan error, g)
+		for j := 0; j < g; j++ {
+			wg.Add(1)
+			closeIt := (j+k)%2 == 0
+			go func() {
+				defer wg.Done()
+				atomic.AddInt32(&ready, 1)
+				for atomic.LoadInt32(&gate) == 0 {
+					runtime.Gosched()
+				}
+				var err error
+				if closeIt {
+					err = seg.Close()
+				} else {
+					err = seg.DecRef()
+				}
+				errc <- err
+			}()
+		}
+		for atomic.LoadInt32(&ready) != int32(g) {
+			runtime.Gosched()
+		}
+		atomic.StoreInt32(&gate, 1)
+		wg.Wait()
+		close(errc)
+		c.Count("simultaneous_last_drops")
+		for e := range errc {
+			if e != nil {
+				c.Case(fmt.Sprintf("drop-%d", k), true)
+				c.Violation(fmt.Sprintf("C20 %d holders drop the last %d references at the same instant (trial %d): a DecRef/Close returned %v (the release ran more than once)", g, g, k, e), false)
+				return
+			}
+		}
+		if mp, fd := mappedAndFd(path); k%50 == 0 && (mp || fd) {
+			c.Violation(fmt.Sprintf("C20 %d holders dropped all references concurrently: mapping or descriptor still present", g), false)
+			return
+		}
+	}
+	c.Case("simultaneous-last-drops", true)
 }
